@@ -366,6 +366,57 @@ run_config(RegisterType rt, bool be, bool cb, const struct cfg *c, int ci)
 #undef ENSURE_TABLE
 }
 
+/* tables with zero or one register: every handle from 0 upward is "one past
+ * the end" much earlier than in the three-register table */
+static void
+small_tables(void)
+{
+    for (int nreg = 0; nreg <= 1; ++nreg)
+        for (int be = 0; be < 2; ++be)
+            for (int cb = 0; cb < 2; ++cb) {
+                if (!mc_case("small table with %d registers %s %s: handles 0..3, 2^31, 2^32-1 x set/set_unsafe/get", nreg, be ? "BE" : "LE", cb ? "cb" : "mem"))
+                    continue;
+                struct tspec s;
+                memset(&s, 0, sizeof s);
+                s.be = be;
+                s.na = 1;
+                s.a[0] = (struct aspec){ 0, 2, REG_AF_RW, cb, false };
+                s.nr = nreg;
+                if (nreg)
+                    s.r[0] = (struct rspec){ REG_TYPE_UINT16, 0, K_NONE, vu_zero(), vu_zero(), vu_int(REG_TYPE_UINT16, 0x1111) };
+                tab_build(&tb, &s);
+                RegisterInit ri = register_init(&tb.t);
+                bool ok = true;
+                if (ri.code != REG_INIT_SUCCESS) {
+                    mc_fail("C01/setup-init", "register_init of a well-formed table failed with %d", ri.code);
+                    ok = false;
+                }
+                static const RegisterHandle H[] = { 0, 1, 2, 3, 0x80000000u, 0xffffffffu };
+                for (unsigned hi = 0; hi < 6 && ok; ++hi)
+                    for (int variant = 0; variant < 2 && ok; ++variant) {
+                        if (H[hi] < (RegisterHandle)nreg)
+                            continue;
+                        RegisterAtom before[2] = { tb.store[0][0], tb.store[0][1] };
+                        RegisterValue v;
+                        memset(&v, 0, sizeof v);
+                        v.type = REG_TYPE_UINT16;
+                        v.value.u16 = 0x2222;
+                        RegisterAccess a = variant ? register_set(&tb.t, H[hi], v) : register_set_unsafe(&tb.t, H[hi], v);
+                        mc_trans(1);
+                        mc_log("handle %u %s -> %s", H[hi], variant ? "set" : "set_unsafe", acc(a.code));
+                        if (a.code != REG_ACCESS_NOENTRY) {
+                            mc_fail("C01/bad-handle-noentry", "%s with handle %u (table has %d registers) returned %s", variant ? "set" : "set_unsafe", H[hi], nreg, acc(a.code));
+                            ok = false;
+                        } else if (tb.store[0][0] != before[0] || tb.store[0][1] != before[1]) {
+                            mc_fail("C01/refused-leaves-storage", "storage changed by a set with a bad handle");
+                            ok = false;
+                        }
+                    }
+                tab_free(&tb);
+                mc_end(true, ok ? "handles-ok" : "handles-fail");
+            }
+}
+
 /* thorough: all 2^32 patterns of the 32-bit types under a range constraint */
 static void
 sweep32(RegisterType rt, bool be)
@@ -436,6 +487,7 @@ main(int argc, char **argv)
                       && ref_storable(REG_TYPE_FLOAT32, 0x80000000) && ref_storable(REG_TYPE_FLOAT32, 0x00800000),
                   "f32 classes");
     }
+    small_tables();
     static struct cfg cfgs[64];
     int ci = 0;
     for (int t = 0; t < 8; ++t)
